@@ -295,7 +295,11 @@ func c14R3(c *Ctx, rule string) {
 		}
 	})
 	if fitIf != nil {
+		// "fits" is the polarity of the test under which the per-frame maximum is the upper side
 		fitAtom := NormCond(fitIf.Cond, true)
+		if fv, _ := loadedField(fitAtom.Y); fv != maxF {
+			fitAtom = NormCond(fitIf.Cond, false)
+		}
 		// cut: the edge where the data fits; the edge where Unordered is false. What remains: oversize ∧ unordered.
 		cut := func(at Atom) bool {
 			if at.Kind == "cmp" && at.Op == fitAtom.Op && at.X == fitAtom.X && at.Y == fitAtom.Y {
@@ -334,6 +338,49 @@ func c14R3(c *Ctx, rule string) {
 				refusal = true
 			}
 		}
+		// the same through a merge: io.ErrShortBuffer is loaded under the Unordered guard and flows (φ only) into the
+		// error result of a return
+		allInstrs(wr, func(i ssa.Instruction) {
+			ld, ok := i.(*ssa.UnOp)
+			if !ok || ld.Op != token.MUL {
+				return
+			}
+			g, isG := ld.X.(*ssa.Global)
+			if !isG || g.Name() != "ErrShortBuffer" || g.Pkg == nil || g.Pkg.Pkg.Path() != "io" {
+				return
+			}
+			under := false
+			for _, at := range AtomsAt(ld) {
+				if at.Kind == "bool" && at.Pol {
+					if fv, _ := loadedField(at.X); fv == unordered {
+						under = true
+					}
+				}
+			}
+			if !under {
+				return
+			}
+			seen := map[ssa.Value]bool{}
+			work := []ssa.Value{ld}
+			for len(work) > 0 {
+				v := work[0]
+				work = work[1:]
+				if seen[v] || v.Referrers() == nil {
+					continue
+				}
+				seen[v] = true
+				for _, r := range *v.Referrers() {
+					switch x := r.(type) {
+					case *ssa.Phi:
+						work = append(work, x)
+					case *ssa.Return:
+						if len(x.Results) == 2 && x.Results[1] == v {
+							refusal = true
+						}
+					}
+				}
+			}
+		})
 		c.Check(refusal, rule, "refusal reports io.ErrShortBuffer", c.atFn(wr), "return …, io.ErrShortBuffer under Unordered", "the oversize unordered write is not reported as an error")
 	}
 	checkMaxUnit(c, rule)
